@@ -180,12 +180,12 @@ class Ctx:
     def run_lines(self, exe, script, timeout=None, env=None, args=()):
         """run a line-protocol program on a script -> (rc, stdout lines, stderr tail).
         A run that exceeds its time limit, and does so again when repeated alone with three times the
-        limit, is a result (rc 124, reported as a hang by the callers); after two of them the limit for the remaining runs of this check drops to 20 s, so a change
+        limit, is a result (rc 124, reported as a hang by the callers); after the first confirmed one the limit for the remaining runs of this check drops to 30 s, so a change
         that makes the code spin costs minutes, not hours."""
         if timeout is None:
             timeout = 180 if getattr(self, "tier", "quick") == "quick" else 600
-        if getattr(self, "_timeouts", 0) >= 2:
-            timeout = min(timeout, 20)
+        if getattr(self, "_timeouts", 0) >= 1:
+            timeout = min(timeout, 30)
         e = dict(os.environ)
         e.setdefault("ASAN_OPTIONS", "detect_leaks=1:abort_on_error=0:allocator_may_return_null=1")
         e.setdefault("UBSAN_OPTIONS", "print_stacktrace=1")
@@ -205,6 +205,11 @@ class Ctx:
         # (one confirmation at a time across all checks of this tree), exceeded three times the limit.
         try:
             with build.Lock("confirm-hang"):
+                if getattr(self, "_timeouts", 0) >= 1:
+                    # a hang of this check has already been confirmed: the run is a violation anyway,
+                    # further expiries are reported without spending another confirmation on each
+                    self._timeouts += 1
+                    return 124, [], "TIMEOUT after %ss (a hang was already confirmed in this run)" % timeout
                 return once(3 * timeout)
         except subprocess.TimeoutExpired as ex:
             so = ex.stdout.decode(errors="replace") if isinstance(ex.stdout, bytes) else (ex.stdout or "")
